@@ -21,9 +21,9 @@ Oracle (independent of processor.py):
   desync     every model line carries the stream offset of the request it answers; every expect()
              records the offset at which it was issued.  A line consumed for an expectation must carry
              that expectation's offset (FIFO); a sync expect must leave no expectation unconsumed;
-             lines consumed as events must belong to the current operation.  Accepted foreign replies,
-             and any success after a misalignment, are violations (a *rejected* stale line that ends
-             the session is the protocol's error path and is only counted);
+             lines consumed as events must belong to the current operation.  Accepted foreign replies
+             and operations that succeed on foreign events are violations (a *rejected* stale line that
+             ends the session is the protocol's error path and is only counted);
   replies    an expect() that rejects the daemon's own positive reply to exactly that request
              (literal mismatch) is a violation; so is an operation that reports success although the
              model daemon failed/died/was signalled, or get_keys returning keys of another request;
@@ -35,9 +35,13 @@ realising the same event scripts, real signals) are replayed into the model, whi
 same token sequence (`traces_validated_against_impl`).  Literal cross-check: every command literal
 processor.py writes is looked up in the bash loops and its expected reply literal compared.
 
-Dropped from DESIGN.md: exhaustive enumeration is bounded to <=3 operations with <=3 events in total
-from a reduced alphabet (thorough tier); signals are only delivered to the daemon's main pid; helper
-IPC uses two stub IpcCommand subclasses (protocol framing is real, command semantics are not).
+Dropped from DESIGN.md: the exhaustive part (thorough tier) enumerates 1 operation x <=3 events, 2 operations
+x <=2 events, 3 operations x <=1 event from a reduced alphabet, both schedulings (78k programs), not all
+3x3; signals are only delivered to the daemon's main pid; helper IPC uses two stub IpcCommand subclasses
+(protocol framing is real, command semantics are not); real phase *execution* (start_processing) is not
+part of the conformance traces (phase loop, metadata/env generation, die, signals, EOF are).
+Side observation (not this property): EbuildProcessor.is_alive stores pid=False and later calls
+os.waitpid(False, WNOHANG), i.e. waitpid(0): "any child in my process group".
 """
 from __future__ import annotations
 
@@ -65,7 +69,8 @@ DESIGN_REF = "DESIGN.md §3 C35"
 LEVEL_TEXT = (
     "Generated-schedule search at message granularity: request programs through the real pool / phase / regen "
     "callers against a hand-written bash-daemon model, with daemon-side events (inherit, bashrcs, helper IPC, die, "
-    "exit, signals) and eager/lazy scheduling; thorough adds bounded-exhaustive programs (<=3 operations, <=3 events). "
+    "exit, signals) and eager/lazy scheduling; thorough adds bounded-exhaustive programs (1 op x <=3 events, 2 x <=2, "
+    "3 x <=1; 78k programs). "
     "Deadlock and desynchronisation are decided synchronously from the model state and hidden reply tags."
 )
 LEVEL_NOTE = ("Trusted: vf/ref/ebd_model.py (transcribed from the bash source; validated by replaying traces of real "
@@ -92,10 +97,11 @@ BAD_ENV_KEY = "VF_BAD-VAR"
 
 
 class Deadlock(BaseException):
-    def __init__(self, site, detail):
+    def __init__(self, site, detail, where=""):
         super().__init__(f"{site}: {detail}")
         self.site = site
         self.detail = detail
+        self.where = where  # which daemon loop is blocked
 
 
 class SessionOver(BaseException):
@@ -317,18 +323,22 @@ class CheckedLock:
     """stands in for processor._global_ebp_lock (a non-reentrant threading.Lock): same semantics,
     but re-acquiring it from the thread that holds it - which blocks forever - raises Deadlock"""
 
-    def __init__(self):
-        self.held = False
+    def __init__(self, reentrant=False):
+        self.held = 0
+        self.reentrant = reentrant  # mirrors the lock type of the tree under test
 
     def acquire(self, blocking=True, timeout=-1):
+        if self.held and self.reentrant:
+            self.held += 1
+            return True
         if self.held:
             raise Deadlock("pool-lock", "the thread holding processor._global_ebp_lock tries to take it again "
                                         "(non-reentrant threading.Lock): blocks forever")
-        self.held = True
+        self.held = 1
         return True
 
     def release(self):
-        self.held = False
+        self.held = max(0, self.held - 1)
 
     __enter__ = acquire
 
@@ -393,7 +403,11 @@ class _Patched:
         p.signal = SignalProxy()
         p.EbuildProcessor = E["TracedEBP"]
         self.saved_lock = p._global_ebp_lock
-        p._global_ebp_lock = CheckedLock()
+        import threading
+
+        self.saved_tb = p.traceback
+        p.traceback = types.SimpleNamespace(print_exc=lambda *a, **k: None)  # shutdown_all_processors prints
+        p._global_ebp_lock = CheckedLock(reentrant=isinstance(self.saved_lock, type(threading.RLock())))
         self.saved_ebd = (E["ebd_mod"].is_userpriv_capable, E["ebd_mod"].is_sandbox_capable)
         E["ebd_mod"].is_userpriv_capable = lambda *a, **k: False
         E["ebd_mod"].is_sandbox_capable = lambda *a, **k: False
@@ -405,6 +419,7 @@ class _Patched:
         p.os, p.spawn, p.signal = E["real"]["os"], E["real"]["spawn"], E["real"]["signal"]
         p.EbuildProcessor = E["BaseEBP"]
         p._global_ebp_lock = self.saved_lock
+        p.traceback = self.saved_tb
         E["ebd_mod"].is_userpriv_capable, E["ebd_mod"].is_sandbox_capable = self.saved_ebd
         del p.active_ebp_list[:]
         del p.inactive_ebp_list[:]
@@ -509,7 +524,7 @@ class Session:
             raise core.HarnessError("itimer armed without a SIGALRM handler")
         pend = len(c.w.buf)
         raise Deadlock(site, f"python blocks in {site} (unflushed bytes: {pend}); daemon blocked reading in "
-                             f"{c.daemon.where}, nothing pending")
+                             f"{c.daemon.where}, nothing pending", where=c.daemon.where)
 
     def on_eof(self):
         self.classes.add("eof")
@@ -683,7 +698,11 @@ def run_case(ctx, case, record=True):
             sess.classes.add("respawn")
         except Deadlock as dl:
             sess.classes.add("deadlock")
-            sess.problem(f"deadlock:{dl.site}:{sess.cur_label.split('#')[0]}", str(dl))
+            if dl.site in ("waitpid", "pool-lock", "eof-spin"):
+                bucket = f"deadlock:{dl.site}"  # one root cause each, whatever operation runs into it
+            else:
+                bucket = f"deadlock:{dl.site}:{sess.cur_label.split('#')[0]}:{dl.where}"
+            sess.problem(bucket, str(dl))
         finally:
             for ebp in sess.ebps:  # no __del__ of this session may run during a later one
                 ebp.__class__ = _InertEBP
@@ -756,9 +775,6 @@ def _judge(E, sess, label, rec):
                          f"operation succeeded after consuming line(s) of another request: {rec['foreign_events'][:2]}")
         if rec.get("foreign_batch") and kind not in ("release", "gc", "shutdown_all"):
             sess.problem("desync:foreign-batch-accepted", "batched expectations consumed foreign lines, operation succeeded")
-        if rec["misaligned_before"] and kind in ("keys", "env", "phase", "regen", "txn") and rec.get("sent"):
-            sess.problem("desync:continued-after-misalignment",
-                         f"operation succeeded although the stream was misaligned before it ({rec['misaligned_before']})")
         if rec.get("check_execs", True):
             for x in new_execs:
                 if x["outcome"] in ("failed", "died", "signaled", "env_failed") and not rec.get("failure_allowed"):
@@ -984,69 +1000,90 @@ def _check_txn(sess, calls, results, label):
         later = [c[0] for c in calls[i + 1:] if c[0] in ("alive", "clear", "paths", "keys", "preload")]
         # any later request that reads a reply must have seen the die (-> exception, not here)
         if later and all(r is not False for r in results[i + 1:] if r is not None) and len(results) == len(calls):
-            ok_later = [r for c, r in zip(calls[i + 1:], results[i + 1:]) if c[0] in ("alive", "clear") and r is True]
+            ok_later = [r for c, r in zip(calls[i + 1:], results[i + 1:]) if c[0] == "alive" and r is True]
             if ok_later:
                 sess.problem("unknown-command:misread", "requests after an unknown command were answered positively")
 
 
-# ---------------------------------------------------------------------------- strategies
-def st_script(mode):
-    """daemon-side event script for one execution; mode: depend | phase"""
-    inherit = st.tuples(st.just("inherit"), st.sampled_from(["e0", "e1", "e2", "nx"])).map(list)
-    common = [
-        inherit,
-        st.tuples(st.just("stderr"), st.integers(1, 2)).map(list),
-        st.tuples(st.just("die"), st.integers(1, 2)).map(list),
-        st.tuples(st.just("exit"), st.sampled_from([0, 1, 3])).map(list),
-        st.tuples(st.just("sig"), st.sampled_from(["INT", "TERM"])).map(list),
-    ]
-    if mode == "phase":
-        common += [
-            st.just(["bashrcs"]),
-            st.tuples(st.just("ipc"), st.just("best_version"), st.just(["a", "b"]), st.booleans()).map(list),
-            st.tuples(st.just("ipc"), st.just("eapply"), st.just(["x"]), st.booleans()).map(list),
-        ]
-    weights = st.one_of(inherit, inherit, *common) if mode == "depend" else st.one_of(*common, st.just(["bashrcs"]))
-    return st.lists(weights, max_size=3)
+# ---------------------------------------------------------------------------- generator
+class _Cur:
+    """cursor over hypothesis-drawn bytes (cheap to draw; the structure is decoded here)"""
+
+    def __init__(self, data):
+        self.d, self.i = data, 0
+
+    def pick(self, n):
+        if self.i >= len(self.d):
+            return 0
+        v = self.d[self.i] % n
+        self.i += 1
+        return v
+
+    def of(self, seq):
+        return seq[self.pick(len(seq))]
 
 
-def st_txn_call():
-    names = st.lists(st.sampled_from(["e0", "e1", "e2", "bad"]), min_size=1, max_size=3, unique=True)
-    return st.one_of(
-        st.tuples(st.just("preload"), names, st.booleans()).map(list),
-        st.tuples(st.just("preload"), names, st.just(True)).map(list),
-        st.just(["clear"]),
-        st.just(["alive"]),
-        st.tuples(st.just("paths"), st.sampled_from([["/dev/null"], ["/usr/bin", "/bin"]])).map(list),
-        st.tuples(st.just("caching"), st.booleans()).map(list),
-        st.tuples(st.just("keys"), st_script("depend")).map(list),
-        st.tuples(st.just("raw"), st.sampled_from(["frobnicate", "preload_eclass", "gen_metadata"])).map(list),
-        st.just(["shutdown"]),
-    )
+_EV_DEPEND = [["inherit", "e0"], ["inherit", "e1"], ["inherit", "e2"], ["inherit", "nx"], ["inherit", "e0"],
+              ["stderr", 1], ["stderr", 2], ["die", 1], ["die", 2], ["exit", 0], ["exit", 1], ["exit", 3],
+              ["sig", "INT"], ["sig", "TERM"]]
+_EV_PHASE = _EV_DEPEND + [["bashrcs"], ["bashrcs"], ["ipc", "best_version", ["a", "b"], False],
+                          ["ipc", "best_version", ["a", "b"], True], ["ipc", "eapply", ["x"], False],
+                          ["ipc", "eapply", ["x"], True]]
+_RAW = ["frobnicate", "preload_eclass", "gen_metadata"]
+_NAMESETS = [["e0"], ["e0", "e1"], ["e1", "e2", "e0"], ["bad"], ["e0", "bad"], ["bad", "e2"], ["e2"]]
 
 
-def st_op():
-    phase_opts = st.fixed_dictionaries({
-        "logging": st.booleans(), "tmpdir": st.booleans(), "failure_allowed": st.booleans(),
-        "bad_env": st.sampled_from([False, False, False, True]), "nbashrc": st.integers(0, 2)})
-    return st.one_of(
-        st.tuples(st.just("keys"), st_script("depend")).map(list),
-        st.tuples(st.just("env"), st_script("depend")).map(list),
-        st.tuples(st.just("phase"), st.sampled_from(["setup", "nofetch", "compile install"]), phase_opts,
-                  st_script("phase")).map(list),
-        st.tuples(st.just("regen"), st.booleans(), st.lists(st_script("depend"), min_size=1, max_size=3)).map(list),
-        st.tuples(st.just("regen"), st.just(True), st.lists(st_script("depend"), min_size=1, max_size=3)).map(list),
-        st.tuples(st.just("txn"), st.lists(st_txn_call(), min_size=1, max_size=4)).map(list),
-    )
+def _dec_script(c, alphabet):
+    return [list(c.of(alphabet)) for _ in range(c.pick(4))]
+
+
+def _dec_txn_call(c):
+    k = c.pick(11)
+    if k <= 1:
+        return ["preload", list(c.of(_NAMESETS)), True]
+    if k == 2:
+        return ["preload", list(c.of(_NAMESETS)), False]
+    if k == 3:
+        return ["clear"]
+    if k == 4:
+        return ["alive"]
+    if k == 5:
+        return ["paths", list(c.of([["/dev/null"], ["/usr/bin", "/bin"]]))]
+    if k == 6:
+        return ["caching", bool(c.pick(2))]
+    if k in (7, 8):
+        return ["keys", _dec_script(c, _EV_DEPEND)]
+    if k == 9:
+        return ["raw", c.of(_RAW)]
+    return ["shutdown"]
+
+
+def decode_case(data):
+    c = _Cur(data)
+    eager = bool(c.pick(2))
+    idle = {}
+    if c.pick(4) == 0:
+        idle = {str(c.pick(9)): c.of(["INT", "TERM"])}
+    ops = []
+    for _ in range(1 + c.pick(4)):
+        k = c.pick(8)
+        if k <= 1:
+            ops.append(["keys", _dec_script(c, _EV_DEPEND)])
+        elif k == 2:
+            ops.append(["env", _dec_script(c, _EV_DEPEND)])
+        elif k == 3:
+            o = {"logging": bool(c.pick(2)), "tmpdir": bool(c.pick(2)), "failure_allowed": bool(c.pick(2)),
+                 "bad_env": c.pick(4) == 0, "nbashrc": c.pick(3)}
+            ops.append(["phase", c.of(["setup", "nofetch", "compile install"]), o, _dec_script(c, _EV_PHASE)])
+        elif k <= 5:
+            ops.append(["regen", c.pick(4) != 0, [_dec_script(c, _EV_DEPEND) for _ in range(1 + c.pick(3))]])
+        else:
+            ops.append(["txn", [_dec_txn_call(c) for _ in range(1 + c.pick(4))]])
+    return {"ops": ops, "idle_signals": idle, "eager": eager}
 
 
 def st_case():
-    sigs = st.dictionaries(st.integers(0, 8).map(str), st.sampled_from(["INT", "TERM"]), max_size=1)
-    return st.fixed_dictionaries({
-        "ops": st.lists(st_op(), min_size=1, max_size=4),
-        "idle_signals": st.one_of(st.just({}), st.just({}), sigs),
-        "eager": st.booleans(),
-    })
+    return st.binary(min_size=6, max_size=64).map(decode_case)
 
 
 # ---------------------------------------------------------------------------- exhaustive (thorough)
@@ -1296,7 +1333,16 @@ class _Real:
 
 
 class ModelMismatch(core.HarnessError):
-    pass
+    """the real daemon stayed silent / the comparison could not be made: inconclusive (exit 2)"""
+
+
+class Deviation(Exception):
+    """the real daemon *said* something else than the model of the pinned protocol"""
+
+
+def _mismatch(msg, rl):
+    # a missing line (timeout; rl is None) may be machine load: harness error.  A different line is a fact.
+    return ModelMismatch(msg) if rl is None else Deviation(msg)
 
 
 def _conf_ebuild(path, script):
@@ -1333,10 +1379,16 @@ def _conf_programs(which, rnd):
         ["phase_loop", "compile install", [["env_file", False]]],
         ["phase_loop", "setup", [["env_file", True], ["bogus"]]],
         ["env", []], ["env", [["inherit", "e0"]]],
+        ["keys", [["stderr", 2], ["exit", 3]]], ["alive"], ["env", [["stderr", 3], ["exit", 1]]],
     ]
     prog = list(common)
     for _ in range(6):
-        prog.append(["keys" if rnd.random() < 0.75 else "env", rnd.choice(scripts)])
+        kind, sc = ("keys" if rnd.random() < 0.75 else "env"), rnd.choice(scripts)
+        if kind == "env" and any(e[0] == "inherit" for e in sc) and any(e[0] in ("die", "exit") for e in sc):
+            # outside the depend phase the real inherit prints a QA notice on stderr, which would end up
+            # in the failure reply: ebuild-level noise the protocol model does not describe
+            kind = "keys"
+        prog.append([kind, sc])
     rnd.shuffle(prog)
     terminal = [
         [["keys", [["sig", "TERM"]]]],
@@ -1365,7 +1417,13 @@ def conformance(ctx, which):
                                 ebuild=types.SimpleNamespace(path=files["ebuild"]), eapi=E["eapi"])
     rnd = random.Random(ctx.seed * 7919 + which)
     prog = _conf_programs(which, rnd)
-    ebp = vebd.spawn()
+    null = os.open(os.devnull, os.O_WRONLY)
+    try:
+        with vebd.alarm(120, "daemon startup"):
+            # the daemon's own stderr (bash -n complaints etc.) is not part of the protocol
+            ebp = E["processor"].EbuildProcessor(False, False, fd_pipes={2: null})
+    finally:
+        os.close(null)
     validated = 0
     try:
         real = _Real(ebp, timeout=120)
@@ -1399,7 +1457,7 @@ def conformance(ctx, which):
                 if tag.kind == "die" and mtext.startswith("dying"):
                     rl = real.line()
                     if rl is None or not rl.startswith(b"dying"):
-                        raise ModelMismatch(f"{op}: model says die, real daemon sent {rl!r}")
+                        raise _mismatch(f"{op}: model says die, real daemon sent {rl!r}", rl)
                     while True:
                         rl = real.line()
                         if not rl:
@@ -1420,14 +1478,14 @@ def conformance(ctx, which):
                         else:
                             break
                     if not nreal:
-                        raise ModelMismatch(f"{op}: model sends metadata keys, real daemon sent {rl!r}")
+                        raise _mismatch(f"{op}: model sends metadata keys, real daemon sent {rl!r}", rl)
                     while i < len(got) and got[i][0].startswith(b"key "):
                         i += 1
                     continue
                 if mtext.startswith("receive_env "):
                     rl = real.line()
                     if not rl or not rl.startswith(b"receive_env "):
-                        raise ModelMismatch(f"{op}: model sends receive_env, real daemon sent {rl!r}")
+                        raise _mismatch(f"{op}: model sends receive_env, real daemon sent {rl!r}", rl)
                     real.raw(int(rl.split()[1]))
                     i += 2  # header + raw body
                     continue
@@ -1435,18 +1493,18 @@ def conformance(ctx, which):
                 if rl is None:
                     raise ModelMismatch(f"{op}: model sends {mtext!r}, real daemon is silent")
                 if rl.decode("utf8", "replace").rstrip("\n") != mtext:
-                    raise ModelMismatch(f"{op}: model sends {mtext!r}, real daemon sent {rl!r}")
+                    raise Deviation(f"{op}: model sends {mtext!r}, real daemon sent {rl!r}")
                 i += 1
             if model.alive:
                 if not real.quiet(0.15):
-                    raise ModelMismatch(f"{op}: model is waiting for input, real daemon sent more: {real.peek_line()!r}")
+                    raise Deviation(f"{op}: model is waiting for input, real daemon sent more: {real.peek_line()!r}")
             else:
                 rl = real.line()
                 if rl != b"":
-                    raise ModelMismatch(f"{op}: model daemon exited, real daemon still talks: {rl!r}")
+                    raise _mismatch(f"{op}: model daemon exited, real daemon still talks: {rl!r}", rl)
             return [g[0].decode().rstrip("\n") for g in got]
 
-        for op in prog:
+        def _conf_step(op):
             k = op[0]
             if k == "alive":
                 send(b"alive\n")
@@ -1524,6 +1582,18 @@ def conformance(ctx, which):
                 sync(op)
             else:
                 raise core.HarnessError(op)
+
+        for op in prog:
+            k = op[0]
+            try:
+                _conf_step(op)
+            except Deviation as dv:
+                case = {"kind": "conformance", "which": which, "op": op}
+                ctx.case(case, nontrivial=True, classes=["conformance", "conformance-deviation"], key=f"dev:{which}:{core.jdump(op)}")
+                ctx.violation(f"conformance:real-daemon-deviates:{k}", case,
+                              f"real bash daemon and the protocol model (pinned bash source) disagree: {dv}. Either the bash "
+                              "side changed (then the python side must follow) or vf/ref/ebd_model.py is out of date")
+                break
             validated += 1
             ctx.case({"kind": "conformance", "which": which, "op": op}, nontrivial=True,
                      classes=["conformance", "conformance:" + k], key=f"conf:{which}:{validated}:{core.jdump(op)}")
@@ -1550,7 +1620,7 @@ def plan(tier, seed):
         tasks.append({"task": "conformance", "which": (seed + i) % 8 if tier == "quick" else i})
     nsh = 10 if tier == "quick" else 8
     for i in range(nsh):
-        tasks.append({"task": "schedules", "salt": i, "examples": 300 if tier == "quick" else 8000})
+        tasks.append({"task": "schedules", "salt": i, "examples": 500 if tier == "quick" else 12000})
     if tier == "thorough":
         for i in range(12):
             tasks.append({"task": "exhaustive", "part": i, "parts": 12})
@@ -1559,7 +1629,7 @@ def plan(tier, seed):
 
 def run_task(ctx, task, **kw):
     if task == "schedules":
-        core.hyp_run(ctx, st_case(), lambda c: run_case(ctx, c), kw["examples"], chunk=100, seed_salt=kw["salt"])
+        core.hyp_run(ctx, st_case(), lambda c: run_case(ctx, c), kw["examples"], chunk=250, seed_salt=kw["salt"])
     elif task == "exhaustive":
         n = 0
         for i, case in enumerate(ex_cases()):
